@@ -21,7 +21,7 @@ from props import unitlib as ul
 ID = 'C04'
 PROFILES = ['dev', 'release']
 REPLAY_PROFILES = ['dev', 'release']
-TIME_LIMIT = {'quick': 420, 'thorough': 3000}
+TIME_LIMIT = {'quick': 900, 'thorough': 3000}
 BUDGET = 200
 FIRST_BUDGET = 400
 
